@@ -1112,7 +1112,7 @@ def compare(cases, impl, model):
                     skipped += 1      # undefined behaviour: nothing to compare with
                     continue
                 xi = "err:out_of_fuel" if x == "timeout" else x
-                if "MODEL_INCONSISTENT" in y:
+                if "MODEL_INCONSISTENT" in y or "MODEL_OVERFLOW" in y:
                     diffs.append((k, tag, x, y))
                 elif len(items) == 1:
                     exact += 1
